@@ -364,7 +364,14 @@ impl<H: Hal, const SIZE: usize> VirtQueue<H, SIZE> {
             // SAFETY: `self.used` points to a valid, aligned, initialised, dereferenceable, readable
             // instance of `UsedRing`.
             let avail_event = unsafe { (*self.used.as_ptr()).avail_event.load(Ordering::Acquire) };
-            self.avail_idx >= avail_event.wrapping_add(1)
+            // The device wants to be notified once `avail_idx` has moved past `avail_event`. We
+            // don't track how many entries were added since the last check, so assume up to a
+            // queue full. The comparison must use wrapping arithmetic because both indices are
+            // free-running 16-bit counters.
+            self.avail_idx
+                .wrapping_sub(avail_event)
+                .wrapping_sub(1)
+                < SIZE as u16
         } else {
             // SAFETY: `self.used` points to a valid, aligned, initialised, dereferenceable, readable
             // instance of `UsedRing`.
